@@ -4,6 +4,7 @@ from __future__ import annotations
 import json
 import re
 from collections import Counter
+from fractions import Fraction
 
 from harness import common as C
 from harness import fw
@@ -328,8 +329,353 @@ def gen_cases(tier, rng):
         rng.shuffle(rest_out)
         keep_out += rest_out[:12]
         cases, out = keep, keep_out
-    return cases + out
+    return cases + out + gen_object_cases(tier, rng)
 
+
+
+# ---------------------------------------------------------------- growth round: object text and receiver resolution
+OBJ_IMPORTS = """from Reduino import target
+from Reduino.Actuators import Servo
+from Reduino.Actuators import Led
+from Reduino.Displays import LCD
+from Reduino.Core import analog_read
+from Reduino.Utils import sleep
+target("COM3")
+"""
+GEOMS = [(16, 2), (20, 4), (8, 1), (40, 2), (16, 4)]
+MIN_PULSES = ["544", "600", "600.5", "599.5", "0.4", "1000.25", "-0.5", "700.0"]
+MAX_PULSES = ["2400", "2300", "2300.0", "2399.5", "2500.75"]
+CMD_FORMS = ['{n}.write(0, {r}, "w{k}")', '{n}.line({r}, "l{k}")', "{n}.clear()", "{n}.progress(0, {k}, 10)"]
+
+
+def lcd_ctor(rng, kind, bl_pool):
+    """one LCD constructor call (argument text) of the given interface with randomly chosen spelling and arguments"""
+    cols, rows = rng.choice(GEOMS)
+    geom = rng.choice(["", "kw", "kw", "pos"])
+    if kind == "I":
+        addr = rng.choice(["0x27", "0x3F", "38", "av", "0x20"])
+        args = [f"i2c_addr={addr}"]
+        if geom:
+            args += [f"cols={cols}", f"rows={rows}"]
+        if rng.random() < 0.2 and bl_pool:
+            args.append(f"backlight_pin={bl_pool.pop()}")
+        rng.shuffle(args)
+        return ", ".join(args)
+    pins = rng.sample(range(22, 44), 7)
+    pin_txt = [str(x) for x in pins[:6]]
+    if rng.random() < 0.2:
+        pin_txt[rng.randrange(6)] = "pv"
+    if rng.random() < 0.5:
+        args = list(pin_txt)
+        if geom == "pos":
+            args += [str(cols), str(rows)]
+        elif geom:
+            args += [f"cols={cols}", f"rows={rows}"]
+    else:
+        args = [f"{k}={v}" for k, v in zip(("rs", "en", "d4", "d5", "d6", "d7"), pin_txt)]
+        rng.shuffle(args)
+        if geom:
+            args += [f"rows={rows}", f"cols={cols}"]
+    if rng.random() < 0.35:
+        args.append(f"rw={pins[6]}")
+    if rng.random() < 0.4 and bl_pool:
+        args.append(f"backlight_pin={bl_pool.pop()}")
+    return ", ".join(args)
+
+
+def servo_ctor(rng, pin):
+    form = rng.randrange(4)
+    if form == 0:
+        return f"{pin}"
+    if form == 1:
+        return f"pin={pin}, min_angle=0, max_angle=170"
+    mn, mx = rng.choice(MIN_PULSES), rng.choice(MAX_PULSES)
+    if form == 2:
+        return f"{pin}, min_pulse_us={mn}, max_pulse_us={mx}"
+    return f"max_pulse_us={mx}, pin={pin}, min_pulse_us={mn}"
+
+
+def script_objects(rng, size, blocks=True):
+    """random declarations (Servo / parallel LCD / I2C LCD with varied constructor arguments; LCD names re-bound)
+    interleaved with one-line LCD commands (top level and inside if/for/try/while bodies) before the main loop,
+    commands in the loop body and in a function.  -> (source, declared libraries)"""
+    lines = [OBJ_IMPORTS.rstrip("\n"), "sleep(7)", 'pv = analog_read("A0")', 'av = analog_read("A1")', "kk = 0"]
+    declared = set()
+    kinds = {}
+    lcd_vars = rng.sample(["a", "b", "c"], rng.choice([1, 2, 2, 3]))
+    bound, servos = [], []
+    bl_pool = [44, 45, 46, 47, 48]
+    rng.shuffle(bl_pool)
+    servo_pins = ["9", "10", "6", "5", "pv"]
+    k = 0
+
+    def cmd(n):
+        nonlocal k
+        k += 1
+        return rng.choice(CMD_FORMS).format(n=n, r=k % 2, k=k)
+
+    for _ in range(size):
+        u = rng.random()
+        if u < 0.3 or not bound:
+            n = rng.choice(lcd_vars)
+            kind = rng.choice("PI")
+            lines.append(f"{n} = LCD({lcd_ctor(rng, kind, bl_pool)})")
+            declared.add(KIND_LIB[kind])
+            kinds.setdefault(n, set()).add(kind)
+            if n not in bound:
+                bound.append(n)
+        elif u < 0.42 and len(servos) < 3:
+            n = f"s{len(servos)}"
+            servos.append(n)
+            lines.append(f"{n} = Servo({servo_ctor(rng, servo_pins[len(servos) - 1])})")
+            declared.add("Servo")
+        elif u < 0.8 or not blocks:
+            lines.append(cmd(rng.choice(bound)))
+        else:
+            body = [cmd(rng.choice(bound)) for _ in range(rng.choice([1, 2]))]
+            form = rng.choice([0, 1, 2, 4])      # (3: try/except - the emitted `catch (Exception &)` does not compile: C06's business)
+            if form == 0:
+                lines += ["if pv > 1:"] + ind(body)
+            elif form == 1:
+                lines += ["if pv > 900:"] + ind(body[:1]) + ["else:"] + ind([cmd(rng.choice(bound))])
+            elif form == 2:
+                lines += ["for j in range(2):"] + ind(body)
+            elif form == 3:
+                lines += ["try:"] + ind(body) + ["except Exception:"] + ind([cmd(rng.choice(bound))])
+            else:
+                lines += ["while kk < 2:"] + ind(body + ["kk = kk + 1"])
+    has_fn = bool(bound) and rng.random() < 0.4
+    if has_fn:
+        lines += ["def show():"] + ind([cmd(rng.choice(bound)) for _ in range(rng.choice([1, 2]))])
+    loop = []
+    has_loop = rng.random() < 0.85
+    if has_loop and rng.random() < 0.3 and len(servos) < 3:
+        loop.append(f"s{len(servos)} = Servo({servo_ctor(rng, servo_pins[len(servos)])})")
+        servos.append(f"s{len(servos)}")
+        declared.add("Servo")
+    loop += [cmd(n) for n in bound if rng.random() < 0.8]
+    if bound and rng.random() < 0.4:
+        loop += ["if pv > 3:"] + ind([cmd(rng.choice(bound))])
+    if has_fn:
+        loop.append("show()")
+    loop += [f"{s}.write(90)" for s in servos[:1]] + ["sleep(20)"]
+    if has_loop:
+        lines += ["while True:"] + ind(loop)
+    return "\n".join(lines) + "\n", declared, any(len(x) == 2 for x in kinds.values())
+
+
+RES_ALPHABET = ["Da:P", "Da:I", "Db:P", "Ca", "Cb", "If:Ca", "For:Cb"]
+
+
+def script_resolution(seq, with_fn):
+    """exhaustive family for the receiver resolution: seq over RES_ALPHABET (declarations of a / b, commands on them at
+    the top level or inside a block); the loop body and (with_fn) a function use both variables"""
+    lines = [OBJ_IMPORTS.rstrip("\n"), 'pv = analog_read("A0")']
+    bound, declared, kinds = [], set(), {}
+    for k, t in enumerate(seq):
+        if t[0] == "D":
+            n, kind = t[1], t[3]
+            kinds.setdefault(n, set()).add(kind)
+            args = LCD_ARGS[kind][k % 3]
+            lines.append(f"{n} = LCD({args})")
+            declared.add(KIND_LIB[kind])
+            if n not in bound:
+                bound.append(n)
+        elif t[0] == "C":
+            lines.append(f'{t[1]}.write(0, 0, "t{k}")')
+        elif t.startswith("If:"):
+            lines += ["if pv > 1:", f'    {t[4]}.line(1, "i{k}")']
+        else:
+            lines += ["for j in range(2):", f"    {t[5]}.clear()"]
+    if with_fn:
+        lines += ["def show():"] + ind([f'{n}.write(0, 1, "f")' for n in bound])
+    lines += ["while True:"] + ind([f'{n}.line(0, "L")' for n in bound] + (["show()"] if with_fn else []) + ["sleep(20)"])
+    return "\n".join(lines) + "\n", declared, any(len(x) == 2 for x in kinds.values())
+
+
+def resolution_sequences(tier, rng):
+    import itertools
+    out = []
+
+    def valid(q):
+        bound = set()
+        for t in q:
+            if t[0] == "D":
+                bound.add(t[1])
+            elif t[-1] not in bound:
+                return False
+        return True
+    for n in (1, 2, 3, 4):
+        seqs = [list(q) for q in itertools.product(RES_ALPHABET, repeat=n) if valid(q)]
+        if tier != "thorough" and n == 4:
+            rng.shuffle(seqs)
+            seqs = seqs[:40]
+        out += seqs
+    extra = 400 if tier == "thorough" else 30
+    for _ in range(extra):
+        n = rng.choice([5, 6, 7])
+        while True:
+            q = [rng.choice(RES_ALPHABET) for _ in range(n)]
+            if valid(q):
+                break
+        out.append(q)
+    return out
+
+
+def gen_object_cases(tier, rng):
+    cases = []
+    n_rand = 600 if tier == "thorough" else 90
+    for k in range(n_rand):
+        src, declared, mix = script_objects(rng, rng.choice([2, 3, 4, 6, 8, 10]), blocks=(k % 4 != 0))
+        cases.append({"src": src, "cat": "in", "kind": "in:objects:random", "declared": declared, "rebind_mixed": mix, "nocompile": tier != "thorough" and k % 4 != 1,
+                      "meta": {"family": "objects", "k": k}})
+    for k, seq in enumerate(resolution_sequences(tier, rng)):
+        src, declared, mix = script_resolution(seq, with_fn=(k % 3 == 0))
+        cases.append({"src": src, "cat": "in", "kind": "in:objects:resolution", "declared": declared, "rebind_mixed": mix, "nocompile": tier != "thorough" and k % 8 != 0,
+                      "meta": {"family": "resolution", "seq": seq}})
+    return cases
+
+
+def fix_items(x):
+    if isinstance(x, dict):
+        return Fraction(x["frac"][0], x["frac"][1])
+    if isinstance(x, list):
+        return [fix_items(y) for y in x]
+    return x
+
+
+GLOBAL_LINE_RE = re.compile(r"^(?:(?:Servo|LiquidCrystal|LiquidCrystal_I2C)[ \t]|(?:const int|int|bool) __redu_lcd\d*_(?:cols|rows|brightness|backlight_state)_)")
+SERVO_INIT_RE = re.compile(r"^\s*__servo_\w+\.(?:attach|writeMicroseconds)\(")
+
+
+def body_of(cpp, start):
+    """the lines of the function body that starts with the line `start` (up to the closing brace in column 0)"""
+    i = cpp.find("\n" + start + "\n")
+    if i < 0:
+        return None, -1
+    out = []
+    for line in cpp[i + len(start) + 2:].split("\n"):
+        if line == "}":
+            return out, i
+        out.append(line)
+    return None, i
+
+
+def item_names(items):
+    """(LCD variable names, rendered backlight-pin expressions) mentioned in the item encoding"""
+    names, bls = set(), set()
+
+    def walk(x):
+        if isinstance(x, list) and x and isinstance(x[0], int) and not isinstance(x[0], bool):
+            if x[0] == 1 and len(x) == 14:
+                names.add(x[1])
+                bl = x[12]
+                if bl:
+                    bls.add(str(bl[1]))
+                return
+            if x[0] == 9 and len(x) == 2 and isinstance(x[1], str):
+                names.add(x[1])
+                return
+        if isinstance(x, list):
+            for y in x:
+                walk(y)
+    walk(items)
+    return names, bls
+
+
+def read_objects(cpp, items):
+    """library-object lines of the emitted sketch: global definition lines, the initialisation + command lines of
+    setup(), the command lines of loop() and of the function bodies (None when the sketch has an unexpected shape)"""
+    setup, i_setup = body_of(cpp, "void setup() {")
+    loop, _ = body_of(cpp, "void loop() {")
+    if setup is None or loop is None:
+        return None
+    head = cpp[:i_setup].split("\n")
+    names, bls = item_names(items)
+    if names:
+        ident = re.compile(r"__redu_lcd(\d*)_(?:(cols|rows|brightness|backlight_state)_)?(%s)\b" % "|".join(sorted(map(re.escape, names), key=len, reverse=True)))
+    else:
+        ident = re.compile(r"(?!x)x")
+    blre = re.compile(r"^\s*pinMode\((?:%s), OUTPUT\);" % "|".join(map(re.escape, sorted(bls)))) if bls else re.compile(r"(?!x)x")
+
+    def relevant(l):
+        return bool(ident.search(l) or SERVO_INIT_RE.match(l) or blre.match(l))
+
+    def receiver(l):
+        obj = cols = None
+        for m in ident.finditer(l):
+            if m.group(2) is None and obj is None:
+                obj = m.group(0)
+            if m.group(2) == "cols" and cols is None:
+                cols = m.group(0)
+        return [obj, cols]
+    return {"globals": [l for l in head if GLOBAL_LINE_RE.match(l)],
+            "setup": [l for l in setup if relevant(l)],
+            "loop": [receiver(l) for l in loop if ident.search(l)],
+            "functions": [receiver(l) for l in head if l.startswith(" ") and ident.search(l)],
+            "receiver": receiver}
+
+
+def same_receivers(model, real):
+    """model: [[object, cols_var], ...]; real: [[object, cols_var or None], ...] (a `.clear();` line has no cols variable)"""
+    if len(model) != len(real):
+        return False
+    return all(m[0] == r[0] and (r[1] is None or m[1] == r[1]) for m, r in zip(model, real))
+
+
+def wrecvs(v):
+    return [[C.wstr(x[0]), C.wstr(x[1])] for x in v]
+
+
+def object_correspondence(ctx, c, r, m, incs, dist):
+    """model (coq/Tool/LibObjs.v through coq/Wire/C14W.v case 1) vs the emitted text"""
+    case_rep = {"script": c["src"], "items": r["items"]}
+    if m[0] != 0:
+        ctx.disagree("object model could not decode the items", case_rep, m, None)
+        return False
+    real = read_objects(r["cpp"], r["items"])
+    if real is None:
+        ctx.disagree("emitted sketch has no setup()/loop() of the expected shape", case_rep, None, r["cpp"][-400:])
+        return False
+    g, init = [C.wstr(x) for x in m[1]], [C.wstr(x) for x in m[2]]
+    rs, rl, rf = wrecvs(m[3]), wrecvs(m[4]), [wrecvs(f) for f in m[5]]
+    spec_s, spec_l, at_top, follow = wrecvs(m[6]), wrecvs(m[7]), m[8], m[9]
+    hdr = [HEADERS[j] for j in m[10]]
+    ok = True
+    if g != real["globals"]:
+        ok = False
+        ctx.disagree("library object definitions (global lines with constructor arguments): model vs emit", case_rep, g, real["globals"])
+    if real["setup"][:len(init)] != init:
+        ok = False
+        ctx.disagree("initialisation lines of the library objects in setup(): model vs emit", case_rep, init, real["setup"][:len(init) + 2])
+    real_rs = [real["receiver"](l) for l in real["setup"][len(init):]]
+    if not same_receivers(rs, real_rs):
+        ok = False
+        ctx.disagree("display object addressed by the LCD commands of setup(): model vs emit", case_rep, rs, real_rs)
+    if not same_receivers(rl, real["loop"]):
+        ok = False
+        ctx.disagree("display object addressed by the LCD commands of loop(): model vs emit", case_rep, rl, real["loop"])
+    flat = [x for f in rf for x in f]
+    if not same_receivers(flat, real["functions"]):
+        ok = False
+        ctx.disagree("display object addressed by the LCD commands of the function bodies: model vs emit", case_rep, flat, real["functions"])
+    if hdr != [h for h in incs if h in HEADERS]:
+        ok = False
+        ctx.disagree("#include lines: model on the erased items vs emit", case_rep, hdr, incs)
+    dist["objects:lcds_at_top:" + str(at_top)] += 1
+    if at_top == 1 and follow == 1:
+        # inside the guard of C14_resolution_is_latest_binding the emitted receivers are the reference semantics
+        if not same_receivers(spec_s, real_rs) or not same_receivers(spec_l, real["loop"]):
+            ok = False
+            ctx.disagree("a command does not address the display of the latest declaration of its variable that precedes it", case_rep,
+                         {"setup": spec_s, "loop": spec_l}, {"setup": real_rs, "loop": real["loop"]})
+        dist["objects:inside_resolution_guard"] += 1
+    dist["objects:global_lines"] += len(g)
+    dist["objects:init_lines"] += len(init)
+    dist["objects:command_receivers"] += len(rs) + len(rl) + len(flat)
+    if len({x[0] for x in rs + rl + flat}) > 1:
+        dist["objects:scripts_addressing_several_displays"] += 1
+    return ok
 
 # ---------------------------------------------------------------- reading the emitted text
 INC_RE = re.compile(r'^[ \t]*#[ \t]*include[ \t]*[<"]([^>"]+)[>"]', re.M)
@@ -470,16 +816,19 @@ def run(ctx: C.Ctx):
     n_eval = 0
 
     # ---- compile + link every sketch inside the quantifier
-    in_idx = [k for k, (c, r) in enumerate(zip(cases, res)) if c["cat"] == "in" and r.get("ok")]
+    in_idx = [k for k, (c, r) in enumerate(zip(cases, res)) if c["cat"] == "in" and r.get("ok") and not c.get("nocompile")]
     comp = fw.run_sketches([{"cpp": res[k]["cpp"], "compile_only": True} for k in in_idx])
     compiled = dict(zip(in_idx, comp))
 
     # ---- model
     ok_idx = [k for k, r in enumerate(res) if r.get("ok")]
-    model = {}
+    model, obj_model = {}, {}
     if ctx.exe:
         outs = ctx.model([[0] + res[k]["skeleton"] for k in ok_idx])
         model = dict(zip(ok_idx, outs))
+        obj_idx = [k for k in ok_idx if not res[k].get("items_unsupported")]
+        outs = ctx.model([[1] + fix_items(res[k]["items"]) for k in obj_idx])
+        obj_model = dict(zip(obj_idx, outs))
 
     nested_seen = Counter()
 
@@ -540,6 +889,14 @@ def run(ctx: C.Ctx):
                 nested_seen["guard_false" if m_guard == 0 else "guard_true"] += 1
             if m_req or m_hdr:
                 nontrivial.add(json.dumps(r["skeleton"]))
+        mo = obj_model.get(k)
+        if mo is not None:
+            n_eval += 1
+            dist["objects:compared"] += 1
+            if object_correspondence(ctx, c, r, mo, incs, dist):
+                nontrivial.add(json.dumps(r["items"]))
+        elif r.get("items_unsupported"):
+            dist["objects:skipped (command kinds outside the item model)"] += 1
         # ---------- property oracle (inside the quantifier only)
         if c["cat"] == "in" and c.get("rebind_mixed") and "F-C14-lcd-rebind" in regressed:
             # the repaired defect is back and already reported with its witness as replay: scripts of the same
